@@ -1446,8 +1446,12 @@ func gridLayout(context *layoutContext, box_ Box, bottomSpace pr.Float, skipStac
 	hasBroken := false
 	for i := skipRow; i < len(rowsPositions); i++ {
 		rowY := rowsPositions[i]
-		// TODO: Check that page is not empty.
 		if context.overflowsPage(bottomSpace, rowY-skipHeight) {
+			if pageIsEmpty && i <= skipRow+1 {
+				// Breaking here would leave no row on an empty page:
+				// the first row has to be placed, even if it overflows.
+				continue
+			}
 			if i == 0 {
 				return nil, blockLayout{nil, nil, tree.PageBreak{Break: "any"}, false}
 			}
